@@ -42,19 +42,27 @@ type InstIn struct {
 	Src InstSrc `json:"src"`
 }
 
+type ModeObs struct {
+	Atom     string `json:"atom"`
+	Src      int    `json:"src"`      // permission bits of the source file as the harness created it
+	MadeExec bool   `json:"madeExec"` // the candidate that had no executable bit
+	Got      int    `json:"got"`      // permission bits of the installed copy
+}
+
 type InstObs struct {
-	OK                bool     `json:"ok"`
-	Present           bool     `json:"present"`
-	Ver               int      `json:"ver"`
-	Files             []string `json:"files"`
-	Intact            bool     `json:"intact"`
-	ListedAndGettable bool     `json:"listedAndGettable"`
-	Ghost             bool     `json:"ghost"` // the plugin directory is gone, yet the manager still lists or hands out the plugin
-	BystanderSame     bool     `json:"bystanderSame"`
-	ReportedNew       int      `json:"reportedNew"`
-	ReportedOld       int      `json:"reportedOld"`
-	Panic             bool     `json:"panic"`
-	Note              string   `json:"-"`
+	Modes             []ModeObs `json:"modes"`
+	OK                bool      `json:"ok"`
+	Present           bool      `json:"present"`
+	Ver               int       `json:"ver"`
+	Files             []string  `json:"files"`
+	Intact            bool      `json:"intact"`
+	ListedAndGettable bool      `json:"listedAndGettable"`
+	Ghost             bool      `json:"ghost"` // the plugin directory is gone, yet the manager still lists or hands out the plugin
+	BystanderSame     bool      `json:"bystanderSame"`
+	ReportedNew       int       `json:"reportedNew"`
+	ReportedOld       int       `json:"reportedOld"`
+	Panic             bool      `json:"panic"`
+	Note              string    `json:"-"`
 }
 
 var verStrings = []string{"", "0.9.0", "1.0.0-alpha", "1.0.0-alpha.1", "1.0.0", "1.0.0+build", "1.1.0"}
@@ -137,12 +145,16 @@ func runPluginInstall() int {
 		src := filepath.Join(caseDir, "src", "d")
 		must(os.MkdirAll(src, 0755))
 		srcVer := verString(in.Src.Ver, salt+1)
-		candMode := os.FileMode(0755)
+		// permission bits of the source files, by seed: what 0755 lets through is kept by the installed copy
+		srcModes := map[string]os.FileMode{}
+		candMode := []os.FileMode{0755, 0700, 0777, 0750, 0711}[mix(*flagSeed, c.ID, "cmode")%5]
 		if in.Src.Cand == "nonexec" {
-			candMode = 0644
+			candMode = []os.FileMode{0644, 0600, 0666}[mix(*flagSeed, c.ID, "cmode")%3]
 		}
+		srcModes["executable"] = candMode
 		if in.Src.Cand != "none" && in.Src.Cand != "misnamed" && in.Src.Cand != "linkOnly" {
 			must(os.WriteFile(filepath.Join(src, "notation-p"), []byte(installScript(marker, "p", srcVer, in.Src.Meta, "src")), candMode))
+			must(os.Chmod(filepath.Join(src, "notation-p"), candMode))
 		}
 		if in.Src.Cand == "misnamed" {
 			// an executable whose name only contains the plugin file name
@@ -169,7 +181,12 @@ func runPluginInstall() int {
 			case "link-dangling":
 				must(os.Symlink(filepath.Join(caseDir, "elsewhere", "nothing-here"), filepath.Join(src, extraFile[f])))
 			default:
-				must(os.WriteFile(filepath.Join(src, extraFile[f]), []byte("extra # origin: src\n"), 0644))
+				srcModes[f] = []os.FileMode{0644, 0600, 0666, 0640, 0755}[mix(*flagSeed, c.ID, "xmode"+f)%5]
+				if (f == "cand-before" || f == "cand-after") && srcModes[f]&0100 != 0 {
+					srcModes[f] = 0660 // (these are the NON-executable files of the plugin file-name format)
+				}
+				must(os.WriteFile(filepath.Join(src, extraFile[f]), []byte("extra # origin: src\n"), srcModes[f]))
+				must(os.Chmod(filepath.Join(src, extraFile[f]), srcModes[f])) // (WriteFile's mode is subject to the umask)
 			}
 		}
 		if in.Src.Subdir {
@@ -204,7 +221,7 @@ func runPluginInstall() int {
 		bystBefore := snapTree(filepath.Join(root, "q"))
 		mgr := plugin.NewCLIManager(dir.NewSysFS(spell(root, filepath.Join(caseDir, "root-link"), mix(*flagSeed, c.ID, "spell-root"))))
 		ctx := context.Background()
-		obs := InstObs{Files: []string{}, Intact: true, ReportedNew: -1, ReportedOld: -1}
+		obs := InstObs{Modes: []ModeObs{}, Files: []string{}, Intact: true, ReportedNew: -1, ReportedOld: -1}
 		panicked, msg := guarded(func() {
 			if mix(*flagSeed, c.ID, "used")%2 == 1 {
 				// the manager object has been used before: listing and look-ups of both plugins (what follows must reflect the
@@ -264,6 +281,25 @@ func runPluginInstall() int {
 				}
 				sort.Strings(obs.Files)
 				obs.Intact = len(origins) == 1
+				if origins["src"] && len(origins) == 1 && in.Src.Loc != "installed" {
+					// the installed files are the source's: their permission bits against the source's
+					for _, de := range des {
+						atom := de.Name()
+						if atom == "notation-p" {
+							atom = "executable"
+						}
+						for a, fn := range extraFile {
+							if fn == de.Name() {
+								atom = a
+							}
+						}
+						if sm, ok := srcModes[atom]; ok {
+							if fi, err := de.Info(); err == nil {
+								obs.Modes = append(obs.Modes, ModeObs{Atom: atom, Src: int(sm), MadeExec: atom == "executable" && in.Src.Cand == "nonexec", Got: int(fi.Mode().Perm())})
+							}
+						}
+					}
+				}
 				names, lerr := mgr.List(ctx)
 				listed := false
 				for _, n := range names {
